@@ -26,7 +26,7 @@ M = [
     ("pool-release-unacquired", ["C12"], "gwf/backends/local.py", "            if acquired:\n                self.cores_ressource.release()", "            self.cores_ressource.release()"),
     ("pool-sem-plus-one", ["C12"], "gwf/backends/local.py", "return asyncio.Semaphore(self.max_cores)", "return asyncio.Semaphore(self.max_cores + 1)"),
     ("pool-acquire-after-start", ["C12"], "gwf/backends/local.py", "            await self.cores_ressource.acquire()\n            acquired = True\n            self.task_states[tid] = LocalStatus.RUNNING\n", "            self.task_states[tid] = LocalStatus.RUNNING\n"),
-    ("pool-first-completed", ["C11"], "gwf/backends/local.py", "return_when=asyncio.ALL_COMPLETED", "return_when=asyncio.FIRST_COMPLETED"),
+    ("pool-first-completed", ["C13"], "gwf/backends/local.py", "return_when=asyncio.ALL_COMPLETED", "return_when=asyncio.FIRST_COMPLETED"),
     ("pool-check-first-dep-only", ["C11"], "gwf/backends/local.py", "                for dep_tid in deps:\n                    if self.task_states[dep_tid] != LocalStatus.COMPLETED:", "                for dep_tid in list(deps)[:1]:\n                    if self.task_states[dep_tid] != LocalStatus.COMPLETED:"),
     ("pool-killed-counts-completed", ["C11"], "gwf/backends/local.py", "                    if self.task_states[dep_tid] != LocalStatus.COMPLETED:", "                    if self.task_states[dep_tid] not in (LocalStatus.COMPLETED, LocalStatus.KILLED):"),
     ("pool-swap-failed-killed", ["C13"], "gwf/backends/local.py", "        except TaskFailedError:\n            self.task_states[tid] = LocalStatus.FAILED", "        except TaskFailedError:\n            self.task_states[tid] = LocalStatus.COMPLETED"),
@@ -44,7 +44,7 @@ M = [
     ("flatten-top-only", ["C01", "C03"], "gwf/core.py", "            for k, v in g.items():\n                flatten_rec(v)", "            for k, v in g.items():\n                res.append(v) if isinstance(v, str) else flatten_rec(v[:1])"),
     # ---- plan
     ("plan-failed-not-prereq", ["C02"], "gwf/scheduling.py", "    Status.FAILED,\n    Status.CANCELLED,\n)", "    Status.CANCELLED,\n)"),
-    ("plan-no-memo", ["C02"], "gwf/scheduling.py", "            if node in cache:\n                stack.pop()\n                continue", "            if node in cache and node is not target:\n                stack.pop()\n                continue"),
+    ("plan-no-memo", ["C05"], "gwf/scheduling.py", "            if node in cache:\n                stack.pop()\n                continue", "            if node in cache and node is not target:\n                stack.pop()\n                continue"),
     ("plan-all-deps", ["C02"], "gwf/scheduling.py", "            if status in SUBMITTED_STATES:\n                submitted_deps.append(dep)", "            submitted_deps.append(dep)"),
     ("plan-run-ignores-patterns", ["C02", "C05"], "gwf/plugins/run.py", "endpoints = filter_names(graph, targets) if targets else graph.endpoints()", "endpoints = graph.endpoints()"),
     ("plan-running-resubmitted", ["C02"], "gwf/scheduling.py", "        if status_func(target) == BackendStatus.RUNNING:\n            logger.debug(\"Target %s is already running\", target)\n            return Status.RUNNING", "        if status_func(target) == BackendStatus.RUNNING:\n            submit_func(target, dependencies=submitted_deps)\n            return Status.RUNNING"),
